@@ -62,6 +62,21 @@ def pairs(tier):
                 ('att-byte', '%s BYTE PTR [ebx+{0}], cl' % mn, False, '%s %%cl, {0}(%%ebx)' % (att[:-1] + 'b'), True, None),
                 ('att-abs', '%s eax, DWORD PTR [{0}]' % mn, False, '%s {0}, %%eax' % att, True, None),
             ]
+    # base / index / scale combinations incl. the same register as base and index, index-only, no displacement
+    for mn, att in (('lea', 'leal'), ('mov', 'movl')):
+        sz = '' if mn == 'lea' else 'DWORD PTR '
+        for b, i in (('ebx', 'esi'), ('ebx', 'ebx'), ('ecx', 'ecx'), ('ebp', 'eax'), ('esp', 'edi')):
+            for sc in (1, 2, 4, 8):
+                if i == 'esp':
+                    continue
+                P.append(('att-sib-%s-%s-%d' % (b, i, sc), '%s edx, %s[%s+%s*%d+{0}]' % (mn, sz, b, i, sc), False, '%s {0}(%%%s,%%%s,%d), %%edx' % (att, b, i, sc), True, None))
+                P.append(('att-sib0-%s-%s-%d' % (b, i, sc), '%s edx, %s[%s+%s*%d]' % (mn, sz, b, i, sc), False, '%s (%%%s,%%%s,%d), %%edx' % (att, b, i, sc), True, None))
+                P.append(('order-sib-%s-%s-%d' % (b, i, sc), '%s edx, %s[%s+%s*%d+{0}]' % (mn, sz, b, i, sc), False, '%s edx, %s[%s*%d+%s+{0}]' % (mn, sz, i, sc, b), False, None))
+        for i in ('esi', 'ebx'):
+            for sc in (2, 4, 8):
+                P.append(('att-index-only-%s-%d' % (i, sc), '%s edx, %s[%s*%d+{0}]' % (mn, sz, i, sc), False, '%s {0}(,%%%s,%d), %%edx' % (att, i, sc), True, None))
+        P.append(('att-two-regs', '%s edx, %s[ebx+esi]' % (mn, sz), False, '%s (%%ebx,%%esi), %%edx' % att, True, None))
+        P.append(('att-two-same', '%s edx, %s[ebx+ebx]' % (mn, sz), False, '%s (%%ebx,%%ebx), %%edx' % att, True, None))
     P += [
         ('st0', 'fadd st, st(1)', False, 'fadd st(0), st(1)', False, None),
         ('st0b', 'fxch st(1)', False, 'fxch st(1)', False, None),
